@@ -2,7 +2,7 @@
 import hashlib, importlib, json, os, re, sys, time, traceback
 
 from . import extract, facts
-from .facts import MissingAnchor
+from .facts import MissingAnchor, ShapeViolation
 
 VERIF = extract.VERIF
 # Runs of the machinery's own self-tests analyse a scratch worktree (ZK_REPO=/var/tmp/...): their evidence and replay files go to a
@@ -113,6 +113,9 @@ def run_property(pid, tier, replay=None):
     mod = importlib.import_module("zkrules.rules.%s" % pid.lower())
     try:
         mod.run(ctx)
+    except ShapeViolation as e:
+        from .lib import loc as _loc
+        ctx.fail("shape", "straight-line primitive", str(e), _loc(e.item) if e.item is not None else "")
     except MissingAnchor as e:
         ctx.fail("anchor", "missing", "anchor not found, failing closed: %s" % e)
     except Exception as e:
